@@ -76,6 +76,15 @@ public:
 
   unsigned int size() const { return _master_map.size(); }
 
+#ifdef MASA_VERIF
+  std::string verif_selected() const {
+    for(typename map<std::string,manufactured_solution<Scalar>*>::const_iterator iter = this->_master_map.begin(); iter != this->_master_map.end(); iter++)
+      if(iter->second == _master_pointer && _master_pointer != NULL)
+        return iter->first;
+    return std::string(_master_pointer == NULL ? "" : "<unmapped>");
+  }
+#endif
+
 private:
   //
   //  this function checks the user has an active mms
@@ -1284,6 +1293,35 @@ int MASA::masa_get_numeric_version()
 
 }
 
+
+#ifdef MASA_VERIF
+template <typename Scalar>
+long MASA::masa_verif_live_objects()
+{
+  return verif_live_token<Scalar>::count;
+}
+
+template <typename Scalar>
+unsigned int MASA::masa_verif_registry_size()
+{
+  return masa_master<Scalar>().size();
+}
+
+template <typename Scalar>
+std::string MASA::masa_verif_selected_handle()
+{
+  return masa_master<Scalar>().verif_selected();
+}
+
+namespace MASA {
+  template long masa_verif_live_objects<double>();
+  template long masa_verif_live_objects<long double>();
+  template unsigned int masa_verif_registry_size<double>();
+  template unsigned int masa_verif_registry_size<long double>();
+  template std::string masa_verif_selected_handle<double>();
+  template std::string masa_verif_selected_handle<long double>();
+}
+#endif
 
 // Instantiations
 
